@@ -25,8 +25,9 @@ Vectors ==
 
 St(ph, name, argv, title) == [ph |-> ph, name |-> name, argv |-> argv, title |-> title]
 Init == x = St("root", "", <<>>, "plain")
-Next == \/ x.ph = "root" /\ \E n \in Names : x' = St("fn", n, <<>>, "plain")
-        \/ x.ph = "fn" /\ \E v \in Vectors, t \in Titles : x' = St("call", x.name, v, t)
+PickName == x.ph = "root" /\ \E n \in Names : x' = St("fn", n, <<>>, "plain")
+MakeCall == x.ph = "fn" /\ \E v \in Vectors, t \in Titles : x' = St("call", x.name, v, t)
+Next == PickName \/ MakeCall
 Spec == Init /\ [][Next]_x
 
 EveryCallEndsInBand == x.ph = "call" => Total(x.name, x.argv, x.title)
